@@ -153,6 +153,12 @@ class ExprCanon(ast.NodeTransformer):
                     if k is not None and not mentions(v, g.generators[0].iter):
                         return at(ast.Call(func=ast.Attribute(value=g.generators[0].iter, attr='count', ctx=ast.Load()),
                                            args=[k], keywords=[]), node)
+        # f((v for v in it)) -> f(it): an identity generator handed to a call that consumes an iterable
+        if len(node.args) == 1 and not node.keywords and isinstance(node.args[0], ast.GeneratorExp) and len(node.args[0].generators) == 1:
+            g0 = node.args[0].generators[0]
+            if not g0.ifs and not g0.is_async and isinstance(g0.target, ast.Name) and isinstance(node.args[0].elt, ast.Name) \
+                    and node.args[0].elt.id == g0.target.id:
+                node.args = [g0.iter]
         # d.get(k, None) -> d.get(k)
         if isinstance(f, ast.Attribute) and f.attr == 'get' and len(node.args) == 2 and not node.keywords \
                 and is_const(node.args[1], None):
@@ -332,6 +338,12 @@ def _accumulations(stmts: list) -> list:
             if not isinstance(s, ast.For) or s.orelse:
                 continue
             fb = _loop_filter_body(s.body)
+            if fb is None or not isinstance(fb[1], (ast.Expr, ast.AugAssign, ast.Assign)):
+                r = _summarised_accumulation(out, j)
+                if r is not None:
+                    out = r
+                    changed = True
+                    break
             if fb is not None and isinstance(fb[1], ast.Assign) and len(fb[1].targets) == 1 and isinstance(fb[1].targets[0], ast.Subscript) \
                     and isinstance(fb[1].targets[0].value, ast.Name):
                 r = _dict_accumulation(out, j, fb)
@@ -402,6 +414,97 @@ def _accumulations(stmts: list) -> list:
             changed = True
             break
     return out
+
+
+def _summarised_accumulation(out: list, j: int):
+    """A loop whose body - whatever its branching and its loop-local temporaries - appends AT MOST ONE element to one list per
+    iteration and does nothing else:  `x = []` ... `for t in it: <body>`  ->  `x = [<element> for t in it if <some path appends>]`
+    with <element> a conditional expression over the appending paths (symbolic execution of the body, locals substituted)."""
+    from . import symex
+    from .errors import AnalysisError
+    s = out[j]
+    if s.orelse or has_node(s.body, (ast.For, ast.While, ast.Try, ast.With, ast.Return, ast.Raise, ast.Break, ast.FunctionDef, ast.Lambda,
+                                     ast.Yield, ast.YieldFrom, ast.Delete)):
+        return None
+    try:
+        sps = symex.sym_paths(s.body, limit=32, inliner=False)
+    except AnalysisError:
+        return None
+    x = None
+    appending = []
+    for sp in sps:
+        if sp.end not in ('fall', 'continue'):
+            return None
+        apps = []
+        for e in sp.events:
+            if e.kind in ('assign', 'cond', 'other'):
+                if e.kind == 'other' and not isinstance(e.node, ast.Pass):
+                    return None
+                continue
+            if e.kind == 'expr' and isinstance(e.expr, ast.Call) and isinstance(e.node.value.func, ast.Attribute) \
+                    and e.node.value.func.attr == 'append' and isinstance(e.node.value.func.value, ast.Name) and len(e.expr.args) == 1 \
+                    and not e.expr.keywords:
+                apps.append((e.node.value.func.value.id, e.expr.args[0]))
+                continue
+            return None
+        if len(apps) > 1:
+            return None
+        # the tests must not call anything that could have an effect
+        if not all(symex.pure(c) or _only_reads(c) for c, _ in sp.conds):
+            return None
+        if apps:
+            if x is not None and apps[0][0] != x:
+                return None
+            x = apps[0][0]
+            appending.append((sp, apps[0][1]))
+    if x is None or not appending:
+        return None
+    tn = _target_names(s.target)
+    locals_ = stores_in(s.body)
+    if x in tn or x in locals_ or mentions(x, [s.iter]) or any(mentions(x, e) or any(mentions(x, c) for c, _ in sp.conds) for sp, e in appending):
+        return None
+    if any(mentions(n, out[j + 1:]) for n in locals_):
+        return None         # a loop-local temporary is read after the loop
+    i = j - 1
+    while i >= 0 and not mentions(x, out[i]):
+        i -= 1
+    if i < 0:
+        return None
+    nm, val = _single_name_assign(out[i])
+    if nm != x or not _is_empty_list(val):
+        return None
+
+    def cond_of(sp):
+        cs = [c if t else negate(c) for c, t in sp.conds]
+        return _and([clone(c) for c in cs], s) if cs else ast.Constant(value=True)
+    conds = [cond_of(sp) for sp, _ in appending]
+    if len(appending) == len(sps):
+        flt = None
+    elif len(conds) == 1:
+        flt = conds[0]
+    else:
+        flt = ast.BoolOp(op=ast.Or(), values=conds)
+    elt = clone(appending[-1][1])
+    if not all(same(e, appending[0][1]) for _, e in appending):
+        for (sp, e), c in list(zip(appending, conds))[-2::-1]:
+            elt = ast.IfExp(test=clone(c), body=clone(e), orelse=elt)
+    gen = ast.comprehension(target=s.target, iter=s.iter, ifs=([flt] if flt is not None else []), is_async=0)
+    new = at(ast.Assign(targets=[ast.Name(id=x, ctx=ast.Store())], value=ast.ListComp(elt=elt, generators=[gen])), s)
+    res = list(out)
+    res[j] = new
+    del res[i]
+    return res
+
+
+def _only_reads(e) -> bool:
+    """Calls of methods whose names are read-only by convention in this code base (predicates / getters)."""
+    for n in ast.walk(e):
+        if isinstance(n, ast.Call):
+            f = n.func
+            nm = f.attr if isinstance(f, ast.Attribute) else (f.id if isinstance(f, ast.Name) else '')
+            if not (nm.startswith(('is_', 'has_', 'get_', 'startswith', 'endswith', 'isinstance', 'len')) or nm in ('get', 'count', 'index')):
+                return False
+    return True
 
 
 def _dict_accumulation(out: list, j: int, fb):
